@@ -219,6 +219,34 @@ class SymSeq:
         return f"SymSeq({self.arr}, off={self.off}, len={self.length})"
 
 
+class Rope:
+    """Concatenation of byte chunks, some of symbolic length (SymSeq) and some of concrete length (bytes / SymBytes).
+    Piece boundaries are not part of the value: adjacent concrete chunks are merged."""
+
+    def __init__(self, chunks):
+        out = []
+        for c in chunks:
+            if isinstance(c, Rope):
+                parts = c.chunks
+            else:
+                parts = (c,)
+            for p in parts:
+                if isinstance(p, (bytes, SymBytes)):
+                    items = tuple(p) if isinstance(p, bytes) else p.items
+                    if not items:
+                        continue
+                    if out and isinstance(out[-1], SymBytes):
+                        out[-1] = SymBytes(out[-1].items + items)
+                    else:
+                        out.append(SymBytes(items))
+                else:
+                    out.append(p)
+        self.chunks = tuple(out)
+
+    def __repr__(self):
+        return f"Rope({list(self.chunks)!r})"
+
+
 class HexStr:
     """hex(v) of a symbolic int; only its length is ever used by the code under verification."""
 
